@@ -61,9 +61,10 @@ def phase2BeforeFix (retries : Nat) (cancelAt : Option Nat) : Nat → List Reply
 inductive RC | failed | success
   deriving Repr, DecidableEq
 
-/-- Rollbacking, RollbackRetrying, TimeoutRollbacking, TimeoutRollbackRetrying, Rollbacked, RollbackFailed,
-    TimeoutRollbacked, TimeoutRollbackFailed -/
-def rollbackFamily (st : Nat) : Bool := st ∈ [4, 5, 6, 7, 11, 12, 13, 14]
+/-- the statuses that say the transaction is not going to be committed: Rollbacking, RollbackRetrying,
+    TimeoutRollbacking, TimeoutRollbackRetrying, CommitFailed, Rollbacked, RollbackFailed, TimeoutRollbacked,
+    TimeoutRollbackFailed -/
+def rollbackFamily (st : Nat) : Bool := st ∈ [4, 5, 6, 7, 10, 11, 12, 13, 14]
 /-- Committing, CommitRetrying, AsyncCommitting, Committed -/
 def commitFamily (st : Nat) : Bool := st ∈ [2, 3, 8, 9]
 
